@@ -285,7 +285,7 @@ Print Assumptions C20_very_verbose_example.
    Failures that are not produced by the check macros (C20_ModelX.v, C20_FailProofs.v): the failure object with its constructors, the
    stages of a test, plugins, exceptions, separate processes; `xrun` / `xspec` / `xvalid` are what bin/check runs
    -------------------------------------------------------------------------------------------------------------- *)
-From CppUVerif Require Import C20_ModelX C20_FailProofs.
+From CppUVerif Require Import C20_ModelX C20_FailProofs C20_Embed.
 
 (* what each way of making a failure object leaves in it, whatever the two-argument constructor stores as the bare name (sn), and
    however often the object is copied *)
@@ -392,8 +392,21 @@ Theorem C20_failures_example :
 Proof. exact example_x_valid. Qed.
 Print Assumptions C20_failures_example.
 
-(* the scenarios of C20_Model.v are the extended ones without stages and plugins: embedded, the examples above give the same observation
-   (also very verbose) and the refuted variants are refused by the extended oracle too *)
+(* the scenarios of C20_Model.v are the extended ones without stages and plugins: embedded (addFailure(FailFailure) / fail() = the
+   derived class on the three-argument constructor, no plugin installed), every valid one gives the SAME observation -- stream, also
+   very verbose, and executions -- so the theorems above about `run` (C20_stream, C20_run_parses_back, C20_any_chunking_accepted,
+   the source tie of the writers, ...) are theorems about what bin/check runs, and the extended oracle accepts it; the writer cannot
+   tell two callbacks apart that agree in what it reads of them (C20_writer_reads) *)
+Theorem C20_core_scenarios_embed : forall s, valid s = true -> xrun (embed s) = run s /\ xspec (embed s) (run s) = true.
+Proof. intros s Hv. split; [exact (xrun_embed s Hv) | rewrite <- (xrun_embed s Hv); apply xrun_meets_spec]. Qed.
+Print Assumptions C20_core_scenarios_embed.
+
+Theorem C20_writer_reads : forall dur es es', Forall2 ev_same es es' -> forall st st', st_same st st' ->
+  tc_items Esc true dur st es = tc_items Esc true dur st' es'.
+Proof. exact items_same. Qed.
+Print Assumptions C20_writer_reads.
+
+(* embedded, the examples above give the same observation and the refuted variants are refused by the extended oracle too *)
 Theorem C20_core_examples_embed :
   xrun (embed example_run) = run example_run /\ xrun (embed example_vv) = run example_vv /\ xrun (embed example_ri) = run example_ri
   /\ xrun (embed example_no_ri) = run example_no_ri /\ xrun (embed long_name_witness) = run long_name_witness
